@@ -430,6 +430,12 @@ class Check:
                 self.oracle_lines.add(line)
                 self.report(v[0], v[1], line, known, model=mo, impl=co, direct=True)
             if not obs_match(mo, co):
+                tol = getattr(pl, "tolerate", None)
+                if tol is not None and tol(line, meta, mo, co):
+                    # the plugin declares this observation unusable (e.g. the case ran out of its time budget on a
+                    # loaded machine): neither an agreement nor a disagreement; counted in the evidence notes
+                    self.notes.append("not judged: %s -> %s" % (line[:80], co[:60]))
+                    continue
                 cls = pl.classify(line, meta, mo, co)
                 disagreements.append((i, line, mo, co, cls))
         # 4. disagreements: a disagreement alone is a broken correspondence
